@@ -95,7 +95,7 @@ PROPS = {
     "C12": P(GALL, ALLG, "proof",
              "Theorems: index obligations (f_ok: every subscript in range, no negative wrap-around) of the generated kernels hold for all shapes and inputs: "
              "the WHOLE solvers fteik2d (binary64: 1..2^50 cells per axis, via Flocq) and fteik3d (binary64 unconditional), node updates, passes, gradient "
-             "assembly under the sign invariant, the four interpolators, shrink and both ray tracers (list forms of the ray kernels not covered); the public API is run under "
+             "assembly under the sign invariant, the four interpolators, shrink and both ray tracers, single and list forms; the public API is run under "
              "NUMBA_BOUNDSCHECK=1 on boundary-heavy inputs.",
              RULE_SOLVE + "; point evaluation and both ray modes on faces/edges/corners, tiny max_step", props="props/C12.v",
              mode="boundscheck", oracle_n=(25, 200)),
@@ -112,7 +112,7 @@ PROPS = {
              oracle_n=(80, 800)),
     "C15": P(GR, RAYS + INTERP, "proof",
              "Theorems on the generated grid-honouring tracer: bounded number of iterations (vertex budget times free-step budget), "
-             "contract of returned rays, shrink factor in [0,1] attained on a face, every interior vertex of a 2D ray on a grid line (R). Straightness, 'always returned when homogeneous' "
+             "contract of returned rays, shrink factor in [0,1] attained on a face, every interior vertex of a 2D ray on a grid line and of a 3D ray on a grid plane (R). Straightness, 'always returned when homogeneous' "
              "are examined on the implementation.",
              "models homogeneous/layered/gradient x square and elongated cells x end points on every face/edge/line", props="props/C15.v",
              oracle_n=(50, 400)),
